@@ -8,6 +8,7 @@ registrations exactly once and records them in MODEL_REGISTRY, the harness' own 
 """
 from __future__ import annotations
 
+import collections.abc
 import os
 import time
 from collections import OrderedDict, UserDict, defaultdict, deque, namedtuple
@@ -299,6 +300,63 @@ def fn_b(*args, **kwargs):
 
 FUNCS = {'fn_a': fn_a, 'fn_b': fn_b}
 
+class CSeq(collections.abc.Sequence):
+    """a Sequence subclass registered with the default AutoEntry (=> SequenceEntry)."""
+
+    def __init__(self, *ch):
+        self.ch = list(ch)
+
+    def __getitem__(self, i):
+        return self.ch[i]
+
+    def __len__(self):
+        return len(self.ch)
+
+    def tree_flatten(self):
+        return tuple(self.ch), None
+
+    @classmethod
+    def tree_unflatten(cls, meta, ch):
+        return cls(*ch)
+
+    def __repr__(self):
+        return f'CSeq({self.ch!r})'
+
+    def _v_fields(self):
+        return (('ch', list(self.ch)),), ('-', None)
+
+
+class CMap(collections.abc.Mapping):
+    """a Mapping subclass registered with the default AutoEntry (=> MappingEntry); entries = keys."""
+
+    def __init__(self, items):
+        self.d = dict(items)
+
+    def __getitem__(self, k):
+        return self.d[k]
+
+    def __iter__(self):
+        return iter(self.d)
+
+    def __len__(self):
+        return len(self.d)
+
+    def tree_flatten(self):
+        ks = sorted(self.d)
+        return [self.d[k] for k in ks], tuple(ks), tuple(ks)
+
+    @classmethod
+    def tree_unflatten(cls, meta, ch):
+        return cls(zip(meta, ch))
+
+    def __repr__(self):
+        return f'CMap({self.d!r})'
+
+    def _v_fields(self):
+        ks = sorted(self.d)
+        return tuple((k, self.d[k]) for k in ks), ('keys', tuple(ks))
+
+
 class Bad:
     """Deliberately malformed custom node (C03 error parity, C15): flatten misbehaves per kind."""
 
@@ -342,7 +400,7 @@ def bad_unflatten(meta, ch):
     return Bad('rebuilt')
 
 
-CUSTOM_CLASSES = (CG, CN, CS, CM, CU, CI, DC, oft.partial, Bad)
+CUSTOM_CLASSES = (CG, CN, CS, CM, CU, CI, DC, oft.partial, Bad, CSeq, CMap)
 
 # (namespace, type) -> (flatten, unflatten, path_entry_type).  '' is the global namespace.
 MODEL_REGISTRY: dict = {}
@@ -380,6 +438,10 @@ def install():
     MODEL_REGISTRY[(NS, DC)] = (e.flatten_func, e.unflatten_func, optree.DataclassEntry)
     MODEL_REGISTRY[('', oft.partial)] = (_cls_flatten, oft.partial.tree_unflatten,
                                          optree.GetAttrEntry)
+    optree.register_pytree_node_class(CSeq, namespace=GLOBAL)
+    MODEL_REGISTRY[('', CSeq)] = (_cls_flatten, CSeq.tree_unflatten, optree.AutoEntry)
+    optree.register_pytree_node_class(CMap, namespace=NS)
+    MODEL_REGISTRY[(NS, CMap)] = (_cls_flatten, CMap.tree_unflatten, optree.AutoEntry)
     # malformed node: registered with optree only (the model never flattens it)
     optree.register_pytree_node(Bad, bad_flatten, bad_unflatten, namespace=GLOBAL)
 
